@@ -13,6 +13,8 @@ SCHEMAS = {
         """Schema description"""
         schema { query: RootQ mutation: RootM }
         directive @tag(name: String = "x", weight: Int = null) repeatable on FIELD_DEFINITION | OBJECT
+        "directive with arguments of schema-defined types"
+        directive @role(r: Role = USER, at: DateTime, f: Nested = {depth: 2.0}, many: [Role!]) on FIELD_DEFINITION | ENUM_VALUE
         scalar DateTime @specifiedBy(url: "https://example.com/dt")
         interface Node { id: ID! }
         interface Named implements Node { id: ID! name: String }
@@ -20,7 +22,11 @@ SCHEMAS = {
         with two lines"""
         type User implements Node & Named { id: ID! name: String @deprecated(reason: "old") role: Role created: DateTime
           friends(first: Int = 10, after: String = null, filter: Filter = {role: ADMIN, tags: ["a", "b"], nested: {depth: 1.5e300}}): [User!]! }
+        "Summary line\\n  - item one (indented)\\n    - nested item\\n  - item two"
         type Bot implements Node { id: ID! }
+        "  leading and trailing blanks  "
+        type Zed implements Named & Node { id: ID! name: String "  indented field description\\n    second line" z: Int }
+        union Reversed = Zed | User | Bot
         union Actor = User | Bot
         enum Role { ADMIN @deprecated(reason: "no") USER }
         input Nested { depth: Float = 0.5 note: String = "quote\\"d" }
